@@ -268,6 +268,28 @@ func C12(r *core.Run) {
 					} else if again, _ := os.ReadFile(conf); string(again) != want {
 						fail("update-twice-noop", "second update --all changes the rules file")
 					}
+					// E: one stored operand at a time differs by one byte; compare --all must notice whichever rule it is
+					// (first, middle or last file of the walk), in both output modes
+					var gens []string
+					for _, a := range []string{"123456", "123456-chain1", "123456-chain2", "123457"} {
+						gens = append(gens, root.Generate(progs[a]).Out)
+					}
+					for ei := range gens {
+						g := append([]string{}, gens...)
+						g[ei] += "Z"
+						edited := rulesFile(ruleSpec{ID: "123456", Regex: g[0], Chain: []string{g[1], g[2]}}, ruleSpec{ID: "123457", Regex: g[3]})
+						os.WriteFile(conf, []byte(edited), 0o644)
+						got = []byte(edited)
+						o.Edits++
+						o.States++
+						o.Transitions += 2
+						if c := root.CompareAll(false); c.Kind == inproc.OK && !strings.Contains(c.Stdout, "has changed") {
+							fail("edit-detected-all", fmt.Sprintf("stored operand #%d of 4 differs from the generated regex but compare --all reports no change", ei))
+						}
+						if c := root.CompareAll(true); c.Kind == inproc.OK {
+							fail("edit-detected-all", fmt.Sprintf("stored operand #%d of 4 differs from the generated regex but compare --all in GitHub mode succeeds", ei))
+						}
+					}
 				}
 			}
 		}
